@@ -830,6 +830,12 @@ func init() {
 					Input: "strings.Map(func(ch) { for i := 0; i < n; i++ {}; return ch }, s) on several VMs, one aborted (conc.AbortIsolation)", Sig: "C07:abort-leaks-to-later-run"})
 			}
 			c.dist["oracle:abort-isolation"]++
+			// a run's outcome depends on ITS arguments only: not on what an earlier run on another VM did to
+			// the argument slice the host passes to both
+			if pr := conc.HostArgsProbe(); pr != "" {
+				c.Violation(PropViolation{Property: "C07", What: "a run's outcome depends on an earlier run that was given the same argument slice: " + pr,
+					Input: "param ...xs; xs[0] = xs[0] + \"!\"; xs = append(xs, 1); return xs   (conc.HostArgsProbe)", Sig: "C07:host-args-shared"})
+			}
 			c.Rule("C07: histories of 0..8 earlier runs on ONE VM (gen.Program scripts; uncaught errors thrown under nested try/finally frames; frame overflow; stack-slot overflow = Go index panic, escaping or recovered; overflow caught inside the recursion; abort at a chosen instruction through the H1 hook; large stack residue; impl-only histories add host callbacks that panic / index out of range / return errors / call vm.Abort(), source modules with mutable state incl. a module whose body fails half-way, builtin modules strings/time mutated by the script, callbacks through pooled child VMs) each optionally preceded by Clear()/SetBytecode or re-running the same Bytecode; then Clear() and/or SetBytecode and the observed script (gen.Program, uninitialised locals, deep recursion, closures, try/catch/finally, module state, builtin-module keys, callbacks). Oracle: observed run on the used VM == on a new VM (outcome, instruction count, H1 trace hash, final globals); two new-VM runs equal; encoder bytes and a structural dump (incl. object identities) of every Bytecode unchanged. Model: the same history chained on one Lean model state through clear/setBytecode/runFrom (every run's outcome, count, trace hash, globals + the model's own new-VM run); distinct = (kind of last earlier run, reset, outcome class, length, trace hash) of model-compared histories")
 			n := 260 * c.Scale
 			for i := 0; i < n; i++ {
